@@ -831,6 +831,8 @@ def run_job(job, want_snaps=True):
         with contextlib.redirect_stderr(io.StringIO()):
             if r["kind"] == "num":
                 cf = {"n": ctrl.grammaticalNumber()}
+            elif r["kind"] == "plural":
+                cf = {"n": "p"}
             else:
                 cf = {f: ctrl.getProp(f) for f in r["feats"]}
         feats = {f: own.get(f, cf.get(f)) for f in PENG if f in own or f in cf}
@@ -859,5 +861,5 @@ def run_job(job, want_snaps=True):
                 if f in getattr(ctrl, "props", {}) and isinstance(pg, dict) and pg.get(f) != ctrl.props[f]:
                     desync.append(f)
             out["fails"].append({"rel": r, "why": "form", "got": got, "exp": exp, "feats": {f: snapshot._val(v) for f, v in feats.items()},
-                                 "desync": desync})
+                                 "desync": desync, "ctrl_n_before": out["gp"][r["ctrl"]][1]})
     return out
